@@ -58,12 +58,22 @@ def artefacts_file(path, workdir, tag):
     argv = sys.argv
     buf = io.StringIO()
     try:
-        sys.argv = ["annotator", path, "-a", "-c", cp + ".cli", "-j", jp + ".cli", "-b", os.path.join(workdir, f"{tag}.bpseq")]
+        stems_csv, inter_csv = os.path.join(workdir, f"{tag}.stems.csv"), os.path.join(workdir, f"{tag}.interstem.csv")
+        sys.argv = ["annotator", path, "-a", "-c", cp + ".cli", "-j", jp + ".cli", "-b", os.path.join(workdir, f"{tag}.bpseq"),
+                    "--stems-csv", stems_csv, "--inter-stem-csv", inter_csv]
         with contextlib.redirect_stdout(buf):
             annotator.main()
     finally:
         sys.argv = argv
     out["cli_stdout"] = buf.getvalue()
+    # the per-structure stem tables name the input file in their first column: the name given on the command line
+    # (written INPUT here, since variant files carry the process id in theirs)
+    base = os.path.basename(path)
+    stem_name = base.rsplit(".", 1)[0]
+    for key, pth in (("cli_stems_csv", stems_csv), ("cli_inter_stem_csv", inter_csv)):
+        if os.path.exists(pth):
+            out[key] = open(pth).read().replace(base, "INPUT").replace(stem_name, "INPUT")
+            os.remove(pth)
     out["cli_json"] = open(jp + ".cli", "rb").read()
     out["cli_csv"] = open(cp + ".cli", "rb").read()
     # the other command-line tools on the same input
